@@ -556,7 +556,10 @@ func (in *c20Inner) setup() error {
 		store, err = graphdb.NewSQLStore(&graphdb.SQLStoreConfig{
 			ChainHash: *chaincfg.MainNetParams.GenesisHash,
 			QueryCfg:  sqldb.DefaultSQLiteConfig(),
-		}, exec, graphdb.WithBatchCommitInterval(c20BatchCommit))
+		}, exec, graphdb.WithBatchCommitInterval(c20BatchCommit),
+			// the defaults pre-allocate ~15 MB per store (50k-entry reject cache,
+			// 15k-node graph cache); thousands of short-lived worlds do not need that
+			graphdb.WithRejectCacheSize(256), graphdb.WithChannelCacheSize(256))
 		if err != nil {
 			return err
 		}
@@ -566,12 +569,14 @@ func (in *c20Inner) setup() error {
 			return err
 		}
 		in.closers = append(in.closers, cleanup)
-		store, err = graphdb.NewKVStore(backend, graphdb.WithBatchCommitInterval(c20BatchCommit))
+		store, err = graphdb.NewKVStore(backend, graphdb.WithBatchCommitInterval(c20BatchCommit),
+			graphdb.WithRejectCacheSize(256), graphdb.WithChannelCacheSize(256))
 		if err != nil {
 			return err
 		}
 	}
-	gdb, err := graphdb.NewChannelGraph(store, graphdb.WithSyncGraphCachePopulation())
+	gdb, err := graphdb.NewChannelGraph(store, graphdb.WithSyncGraphCachePopulation(),
+		graphdb.WithPreAllocCacheNumNodes(16))
 	if err != nil {
 		return err
 	}
